@@ -1,7 +1,7 @@
 import Zc.Proofs.Response
 import Zc.Proofs.ResponseComplete
 import Zc.Props.C11Wire
-import Zc.Props.C12Host
+import Zc.Props.C12
 import Zc.Proofs.ResponseExact
 /-! # C11 — replies are routed and formatted as RFC 6762 §5.4, §6 and §6.7 require
 
